@@ -1172,36 +1172,6 @@ fn comments_behind_closer(toks: &[Tk]) -> usize {
     n
 }
 
-/// the largest number of accesses `should_chain_be_broken` counts in one chain (`.id` / `."str"` followed by a call or index)
-fn max_chain_access_count(ast: &Ast) -> u32 {
-    let mut best = 0;
-    for n in ast.nodes() {
-        let Node::Chain((ChainNode::Root(_), next)) = &n.node else { continue };
-        let (mut count, mut last_access, mut cur) = (0u32, false, *next);
-        let mut guard = 0;
-        while let Some(i) = cur {
-            guard += 1;
-            if guard > 100000 {
-                break;
-            }
-            let Node::Chain((cn, nx)) = &ast.node(i).node else { break };
-            match cn {
-                ChainNode::Call { .. } | ChainNode::Index(_) => {
-                    if last_access {
-                        count += 1;
-                    }
-                    last_access = false;
-                }
-                ChainNode::Id(_) | ChainNode::Str(_) => last_access = true,
-                _ => last_access = false,
-            }
-            cur = *nx;
-        }
-        best = best.max(count);
-    }
-    best
-}
-
 /// number of comment tokens that are the first token on their line
 fn own_line_comments(toks: &[Tk]) -> usize {
     let mut n = 0;
@@ -1334,13 +1304,8 @@ fn static_shapes(src: &str, ast: &Ast, toks: &[Tk]) -> Vec<&'static str> {
             v.push("block_in_brackets");
         }
     }
-    // F-C11-16: blank lines at the very start of the script (two line breaks before the first token)
-    {
-        let lead: String = src.chars().take_while(|c| c.is_whitespace()).collect();
-        if lead.matches('\n').count() >= 2 {
-            v.push("leading_blank_lines");
-        }
-    }
+    // (the shapes of F-C11-16 leading blank lines and F-C11-18 chain counter overflow were removed when those
+    // findings were fixed: ff525cb, 255d402)
     // F-C11-17: a multi-line comment that spans several lines and is followed by code on its last line
     for (i, t) in toks.iter().enumerate() {
         if t.token == Token::CommentMulti && t.eline > t.line {
@@ -1503,11 +1468,6 @@ fn worker_handle(line: &str) -> String {
                     }
                 }
             }
-        }
-        // F-C11-18: with chain_break_threshold 0 the u8 counter of should_chain_be_broken is never compared and
-        // overflows at 256 counted accesses
-        if o.cbt == 0 && !fails.is_empty() && max_chain_access_count(&ast) >= 256 {
-            oshapes.push("chain_counter_overflow");
         }
         // F-C11-10, idempotence symptom: a comment that stood in front of a closing bracket in the input stands
         // BEHIND one (same line) in the first-pass output — the second pass then lays the bracket group out again
@@ -2620,6 +2580,10 @@ impl Gen {
     }
 
     fn program(mut self) -> String {
+        if self.rng.chance(1, 12) {
+            // blank lines at the very start (dropped by the formatter since ff525cb)
+            self.out.push_str(if self.rng.chance(1, 2) { "\n\n" } else { "\n \n\n" });
+        }
         if self.rng.chance(1, 5) {
             self.out.push_str("# leading comment\n");
         }
@@ -2684,9 +2648,7 @@ const FINDINGS: &[(&str, &str, &[&str])] = &[
     ("F-C11-7", "fmt_skip_multiline", &["2:", "3:", "5~"]),
     ("F-C11-12", "fmt_skip_short_span", &["2:", "3:", "5~", "6:"]),
     ("F-C11-15", "block_in_brackets", &["2:", "3:", "5~"]),
-    ("F-C11-16", "leading_blank_lines", &["5:idempotence"]),
     ("F-C11-17", "code_after_multiline_comment", &["2:", "3:", "5~"]),
-    ("F-C11-18", "chain_counter_overflow", &["1:panic"]),
     ("F-C11-10", "comment_migrated_behind_closer", &["5:idempotence"]),
     ("F-C11-9", "block_expr_operand", &["2:", "3:", "5~"]),
     ("F-C11-9", "line_starts_with_minus", &["2:", "3:", "5~"]),
